@@ -105,7 +105,7 @@ Proof.
   - (* dispatch *)
     destruct (tcp_dispatch cx s emit_ok) as [[[s1 rs] tg]| |] eqn:E; cbn [obind] in H; try discriminate.
     injection H as <- <- <-.
-    destruct (dispatch_inv _ _ _ _ _ _ _ Hinv Hcx E) as (g1 & s1' & g' & _ & _ & _ & Hi & Hrel & _).
+    destruct (dispatch_inv _ _ _ _ _ _ _ Hinv Hcx E) as (g1 & s1' & g' & _ & _ & _ & Hi & Hrel & _ & _).
     exists g'. auto.
 Qed.
 
@@ -156,7 +156,7 @@ Theorem dispatch_segments : forall cx g s e s' res tags p,
   (r_control r <> CSyn -> r_window_len r = tcp_scaled_window s).
 Proof.
   intros cx g s e s' res tags p Hinv Hcx H Hp. cbv zeta.
-  destruct (dispatch_inv _ _ _ _ _ _ _ Hinv Hcx H) as (g1 & s1 & g' & Hg1 & Hinv1 & Hfr & _ & _ & Hres).
+  destruct (dispatch_inv _ _ _ _ _ _ _ Hinv Hcx H) as (g1 & s1 & g' & Hg1 & Hinv1 & Hfr & _ & _ & _ & Hres).
   assert (Hseg : exists zwp ka, seg_ok cx g1 s1 (snd p) zwp ka /\ ip_payload_len (fst p) = repr_buffer_len (snd p)).
   { destruct res; cbn [disp_pkt] in Hp; try discriminate; injection Hp as <-;
     destruct Hres as (zwp & ka & A & B & _); eauto. }
